@@ -1,7 +1,7 @@
 --------------------------- MODULE ConcurrencyGen ---------------------------
 EXTENDS Concurrency, Json
 AllOps == {"read-basic", "read-bind", "read-bind-repr", "deep-equal", "copy", "encode-cbor", "encode-json", "walk", "load",
-           "loadraw", "build-basic", "build-bind", "wrap-explicit", "proto-inferred", "struct-lookup"}
+           "loadraw", "build-basic", "build-bind", "wrap-explicit", "proto-inferred", "struct-lookup", "ts-clone", "ts-merge"}
 \* one line per operation mix (the initial states); symmetric mixes are emitted once
 Sorted2(p) == \A g \in 1..(NG - 1) : \A i \in 1..OpsPer : TRUE
 Emit == (pc = [g \in 1..NG |-> 1] /\ active = [g \in 1..NG |-> FALSE]) => PrintT(ToJson([mix |-> plan]))
